@@ -1034,6 +1034,17 @@ func (e *SpecEnv) evalCall(n *ast.CallExpr) (Val, error) {
 			default:
 				return Val{T: fmt.Sprintf("(or (= %s 0) (>= %s %s))", v.T, v.T, a0), Ty: boolT}, nil
 			}
+		case "samebase":
+			// samebase(a, b): two slices share their backing array
+			a, err := e.eval(n.Args[0])
+			if err != nil {
+				return Val{}, err
+			}
+			b, err := e.eval(n.Args[1])
+			if err != nil {
+				return Val{}, err
+			}
+			return Val{T: eq(e.fc.slBase(a.T), e.fc.slBase(b.T)), Ty: boolT}, nil
 		case "alloc":
 			// allocated(p): p was allocated in the current state
 			v, err := e.eval(n.Args[0])
